@@ -5,13 +5,13 @@ from .. import land, poolx
 
 LEVEL = 'exploration'
 ENGINE = 'SEQ+POOLX'
-TECHNIQUE = 'bounded exhaustive enumeration of pool life-cycle histories (add workers of mixed kinds, run, run again, poison run, restart_workers, kill a worker, stuck worker, failing registration, ending by block exit / exception exit / close / terminate) on real thread/process/remote workers against a reference model, plus explicit-state exploration of two consecutive Pool.run calls on one pool with scripted workers'
+TECHNIQUE = 'bounded exhaustive enumeration of pool life-cycle histories (add workers of mixed kinds, run, run again, poison run, restart_workers, kill a worker, stuck worker, SIGSTOPped worker, failing registration, ending by block exit / exception exit / close / terminate) on real thread/process/remote workers against a reference model, plus explicit-state exploration of two consecutive Pool.run calls on one pool with scripted workers'
 LEVEL_TEXT = ('every history of the bounded alphabet is executed on a real Pool with real workers; oracle: after the ending every process and remote worker is dead and its pid is gone, each run returns exactly the results of its own inputs (or PoolError only when no live worker is left), killed workers do not break later runs, restarted workers work again, a failing registration leaves no process behind; POOLX: all reachable states of run;run on one pool with deaths in the first run')
 LEVEL_NOTE = 'histories are bounded (pool composition x <=2 middle operations x ending); a run submitted to a stuck worker is a user error and is not enumerated; thread workers cannot be killed by a pool, the statement exempts them'
 
 POOLS_Q = [('P',), ('R',), ('T', 'P', 'R')]
 POOLS_T = [('T',), ('P',), ('R',), ('P', 'R'), ('T', 'P', 'R'), ('P', 'P')]
-MIDDLE = ['run_a', 'run_b', 'run_poison', 'restart', 'kill', 'stuck', 'add_failing', 'add_P']
+MIDDLE = ['run_a', 'run_b', 'run_poison', 'restart', 'kill', 'stuck', 'stop', 'add_failing', 'add_P']
 ENDS = ['exit', 'exc-exit', 'close', 'terminate']
 RUN_A = [1, 2, 3, 4]
 RUN_B = [10, 20, 30]
@@ -21,9 +21,12 @@ def histories(quick):
     pools = POOLS_Q if quick else POOLS_T
     out = []
     for comp in pools:
-        mids = [()] + [(m,) for m in MIDDLE] + [(a, b) for a in MIDDLE for b in MIDDLE if a != 'stuck']
+        mids = [()] + [(m,) for m in MIDDLE] + [(a, b) for a in MIDDLE for b in MIDDLE if a not in ('stuck', 'stop')]
         if not quick:
-            mids += [(a, b, c) for a in ('run_a', 'kill', 'run_poison', 'restart') for b in MIDDLE if b != 'stuck' for c in ('run_a', 'restart', 'kill', 'stuck')]
+            mids += [(a, b, c) for a in ('run_a', 'kill', 'run_poison', 'restart') for b in MIDDLE if b not in ('stuck', 'stop') for c in ('run_a', 'restart', 'kill', 'stuck', 'stop')]
+        else:
+            # a failed run must leave nothing behind for the next one (always part of the quick tier)
+            mids += [('run_poison', 'restart', 'run_a'), ('run_poison', 'restart', 'run_b'), ('kill', 'restart', 'run_b'), ('run_a', 'run_poison', 'restart', 'run_b')]
         for mid in mids:
             ends = ENDS if (len(mid) <= 1 or not quick) else ['exit', 'exc-exit']
             for end in ends:
@@ -78,6 +81,13 @@ def build(h):
             exp.append(('any', None, 'stuck'))
             sc.append({'op': 'sleep', 's': 0.1})
             exp.append(('any', None, 'sleep'))
+            stuck = True
+        elif m == 'stop':
+            idx = next((i for i, k in enumerate(kinds) if k == 'P' and alive[i]), None)
+            if idx is None:
+                continue
+            sc.append({'op': 'pool_stop', 'pool': 'p', 'i': idx})
+            exp.append(('any', None, 'stop'))
             stuck = True
         elif m == 'add_failing':
             sc.append({'op': 'pool_add', 'pool': 'p', 'kind': 'P', 'fail': True})
